@@ -1762,7 +1762,28 @@ func (c *FnCtx) callIsPure(call *ast.CallExpr, ms *modSet, depth int) bool {
 	}
 	key := c.funcKey(fn)
 	if fs, ok := c.eng.contracts.Funcs[key]; ok {
-		return fs.Assigns == "nothing"
+		if fs.Assigns == "nothing" {
+			return true
+		}
+		if fs.Assigns != "" {
+			// assigns heap(T), ...: only those element heaps
+			onlyHeaps := true
+			for _, item := range splitTop(fs.Assigns, ',') {
+				m := heapItemRe.FindStringSubmatch(strings.TrimSpace(item))
+				if m == nil {
+					onlyHeaps = false
+					break
+				}
+				tmp := &SpecScope{c: c}
+				if t := tmp.lookupType(m[1]); t != nil {
+					ms.elems[typeKey(t)] = t
+				} else {
+					onlyHeaps = false
+				}
+			}
+			return onlyHeaps
+		}
+		return false
 	}
 	if pureExterns[fn.FullName()] {
 		return true
